@@ -642,22 +642,59 @@ func jgenObject(t *rapid.T, o jgenOpts, depth int, label string) jv {
 	return v
 }
 
+// jchooser abstracts "pick one of n": backed by rapid during generation, or by a seeded
+// deterministic sequence inside a check (so that a check stays a pure function of its Case).
+type jchooser interface{ pick(n int) int }
+
+type jrapidChooser struct {
+	t     *rapid.T
+	label string
+}
+
+func (c jrapidChooser) pick(n int) int {
+	if n <= 1 {
+		return 0
+	}
+	return rapid.IntRange(0, n-1).Draw(c.t, c.label)
+}
+
+// jseedChooser is a splitmix64 sequence.
+type jseedChooser struct{ s uint64 }
+
+func (c *jseedChooser) pick(n int) int {
+	c.s += 0x9e3779b97f4a7c15
+	z := c.s
+	z = (z ^ (z >> 30)) * 0xbf58476d1ce4e5b9
+	z = (z ^ (z >> 27)) * 0x94d049bb133111eb
+	z ^= z >> 31
+	if n <= 1 {
+		return 0
+	}
+	return int(z % uint64(n))
+}
+
 // jspell writes one textual presentation of a value: random whitespace, random key order and,
-// per character, one of its legal spellings. plain=true yields a compact spelling with source
-// key order (used as the base presentation).
+// per character, one of its legal spellings.
 func jspell(t *rapid.T, v jv, label string) string {
 	var sb strings.Builder
-	jspellTo(t, &sb, v, label)
+	jspellTo(jrapidChooser{t, label}, &sb, v)
+	return sb.String()
+}
+
+// jspellSeed is jspell driven by a seed (deterministic).
+func jspellSeed(seed uint64, v jv) string {
+	var sb strings.Builder
+	jspellTo(&jseedChooser{seed}, &sb, v)
 	return sb.String()
 }
 
 var jwsChoices = []string{"", "", "", " ", "\n", "\t", "\r", "  \n"}
 
-func jws(t *rapid.T, sb *strings.Builder, label string) {
-	sb.WriteString(rapid.SampledFrom(jwsChoices).Draw(t, label+"_ws"))
+func jws(t jchooser, sb *strings.Builder) {
+	sb.WriteString(jwsChoices[t.pick(len(jwsChoices))])
 }
 
-func jspellString(t *rapid.T, sb *strings.Builder, s string, label string) {
+func jspellString(t jchooser, sb *strings.Builder, s string) {
 	sb.WriteByte('"')
 	for _, r := range s {
 		var opts []string
@@ -690,14 +727,14 @@ func jspellString(t *rapid.T, sb *strings.Builder, s string, label string) {
 				fmt.Sprintf(`\u%04x\u%04x`, r1, r2), fmt.Sprintf(`\u%04X\u%04X`, r1, r2),
 				fmt.Sprintf(`\u%04X\u%04x`, r1, r2)}
 		default:
-			opts = append([]string{lit, lit, lit}, hex(r)...)
+			opts = append([]string{lit, lit, lit, lit, lit, lit, lit, lit}, hex(r)...)
 		}
-		sb.WriteString(rapid.SampledFrom(opts).Draw(t, label+"_sp"))
+		sb.WriteString(opts[t.pick(len(opts))])
 	}
 	sb.WriteByte('"')
 }
 
-func jspellTo(t *rapid.T, sb *strings.Builder, v jv, label string) {
+func jspellTo(t jchooser, sb *strings.Builder, v jv) {
 	switch v.K {
 	case 'n':
 		sb.WriteString("null")
@@ -706,43 +743,44 @@ func jspellTo(t *rapid.T, sb *strings.Builder, v jv, label string) {
 	case 'f':
 		sb.WriteString("false")
 	case 's':
-		jspellString(t, sb, v.S, label)
+		jspellString(t, sb, v.S)
 	case '#':
-		if v.S == "0" && rapid.IntRange(0, 3).Draw(t, label+"_negz") == 0 {
+		if v.S == "0" && t.pick(4) == 0 {
 			sb.WriteString("-0")
 		} else {
 			sb.WriteString(v.S)
 		}
 	case 'a':
 		sb.WriteByte('[')
-		jws(t, sb, label)
+		jws(t, sb)
 		for i, e := range v.A {
 			if i > 0 {
 				sb.WriteByte(',')
-				jws(t, sb, label)
+				jws(t, sb)
 			}
-			jspellTo(t, sb, e, label)
-			jws(t, sb, label)
+			jspellTo(t, sb, e)
+			jws(t, sb)
 		}
 		sb.WriteByte(']')
 	case 'o':
 		ms := append([]jkv(nil), v.O...)
-		if len(ms) > 1 {
-			ms = rapid.Permutation(ms).Draw(t, label+"_perm")
+		for i := len(ms) - 1; i > 0; i-- {
+			j := t.pick(i + 1)
+			ms[i], ms[j] = ms[j], ms[i]
 		}
 		sb.WriteByte('{')
-		jws(t, sb, label)
+		jws(t, sb)
 		for i, m := range ms {
 			if i > 0 {
 				sb.WriteByte(',')
-				jws(t, sb, label)
+				jws(t, sb)
 			}
-			jspellString(t, sb, m.Key, label)
-			jws(t, sb, label)
+			jspellString(t, sb, m.Key)
+			jws(t, sb)
 			sb.WriteByte(':')
-			jws(t, sb, label)
-			jspellTo(t, sb, m.Val, label)
-			jws(t, sb, label)
+			jws(t, sb)
+			jspellTo(t, sb, m.Val)
+			jws(t, sb)
 		}
 		sb.WriteByte('}')
 	}
